@@ -44,6 +44,39 @@ impl std::io::Write for ShortSink {
 	}
 }
 
+/// A sink that takes `left` bytes and then reports a hard error.
+pub struct FailingSink {
+	pub left: usize,
+}
+impl std::io::Write for FailingSink {
+	fn write(&mut self, b: &[u8]) -> std::io::Result<usize> {
+		if self.left == 0 {
+			return Err(std::io::Error::new(std::io::ErrorKind::Other, "sink full"));
+		}
+		let n = b.len().min(self.left);
+		self.left -= n;
+		Ok(n)
+	}
+	fn flush(&mut self) -> std::io::Result<()> {
+		Ok(())
+	}
+}
+
+/// One case in three first presents the same value, on the SAME configuration, to a sink that
+/// fails after a few bytes: whatever that attempt set aside must be gone when the real one starts
+/// (what a serialization returns is a function of schema and value, not of what the
+/// configuration went through before - C14's theorem on the model; here it is history for C01).
+pub fn datum_vec_hist<T: serde::Serialize + ?Sized>(
+	v: &T,
+	config: &mut serde_avro_fast::ser::SerializerConfig,
+	sel: usize,
+) -> Result<Vec<u8>, serde_avro_fast::ser::SerError> {
+	if sel % 3 == 0 {
+		let _ = serde_avro_fast::to_datum(v, FailingSink { left: (sel / 3) % 7 }, config);
+	}
+	datum_vec_sel(v, config, sel)
+}
+
 /// `to_datum_vec`, through a `Vec` (even `sel`) or through a `ShortSink` (odd `sel`).
 pub fn datum_vec_sel<T: serde::Serialize + ?Sized>(
 	v: &T,
@@ -379,6 +412,42 @@ pub fn generate_leaf_table(emit: &mut dyn FnMut(String)) {
 		wide.push((vec![nd(Reg::String, None)], SV::Str("a".repeat(n))));
 		wide.push((vec![nd(Reg::Bytes, None)], SV::Bytes(vec![0x5a; n])));
 	}
+	// named branches of one union that share their unqualified name (in different namespaces, one
+	// of them possibly the null namespace), in every order: a variant / struct name that is the
+	// dotted fullname of one branch selects that branch
+	{
+		let spell = |ns: &str| if ns.is_empty() { "P".to_string() } else { format!("{ns}.P") };
+		for nss in [["g", ""], ["", "g"], ["g", "h"], ["g.h", "g"]] {
+			for same_shape in [true, false] {
+				for with_null in [false, true] {
+					let mut sch: RawSchema = vec![nd(Reg::Union(if with_null { vec![3, 1, 2] } else { vec![1, 2] }), None)];
+					sch.push(nd(Reg::Record(spell(nss[0]), vec![("x".into(), 4)]), None));
+					sch.push(nd(Reg::Record(spell(nss[1]), vec![(if same_shape { "x" } else { "id" }.into(), 4)]), None));
+					sch.push(nd(Reg::Null, None));
+					sch.push(nd(Reg::Int, None));
+					for (b, ns) in nss.iter().enumerate() {
+						let field = if b == 1 && !same_shape { "id" } else { "x" };
+						let body = vec![(field.to_string(), SV::Int(IntTy::I32, BigI::Pos(1 + b as u128)))];
+						// (the bare "P" is carried by both branches - as the short name of one, and
+						// possibly the fullname of the other: which one it selects is the crate's
+						// choice, so it is only presented where every choice fits the value)
+						let mut nms = vec![];
+						if !ns.is_empty() {
+							nms.push(spell(ns));
+						}
+						if same_shape {
+							nms.push("P".to_string());
+						}
+						for nm in nms {
+							wide.push((sch.clone(), SV::Struct(nm.clone(), body.clone())));
+							wide.push((sch.clone(), SV::StructVariant("E".into(), b as u32, nm.clone(), body.clone())));
+							wide.push((sch.clone(), SV::NewtypeVariant("E".into(), b as u32, nm.clone(), Box::new(SV::Struct("Any".into(), body.clone())))));
+						}
+					}
+				}
+			}
+		}
+	}
 	for (sch, v) in wide {
 		emit(case_line(false, None, &sch, &v));
 		let mut w = W::default();
@@ -450,7 +519,7 @@ pub fn run_rt(line: &str) -> Result<String, String> {
 	if allow_slow {
 		config.allow_slow_sequence_to_bytes();
 	}
-	Ok(match datum_vec_sel(&v, &mut config, line.len()) {
+	Ok(match datum_vec_hist(&v, &mut config, line.len()) {
 		Err(_) => "err".into(),
 		Ok(bytes) => {
 			let back = crate::streams::de::run_one(
